@@ -10,9 +10,9 @@ CLAIMED = {
     "C18": {
         "engine": "crash_fs",
         "level": "fault_enumeration",
-        "text": "Depth 1 (one interrupted checkpoint write over a complete checkpoint) is enumerated completely: every fs-operation boundary, every torn prefix class and ENOSPC of every write syscall, for 3 callers x 16 (payload, stdio buffer) configurations; sequences of 2..6 consecutive interrupted writes (with optional manual recovery in between) are seeded search. Every crash is judged by a directory classifier (absent/complete(g)/truncated/mixture).",
+        "text": "Depth 1 (one interrupted checkpoint write over a complete checkpoint) is enumerated completely: every fs-operation boundary, every torn prefix class, ENOSPC and short write of every write syscall, for 3 callers x 16 (payload, stdio buffer) configurations and several checkpoint names; sequences of 2..6 consecutive interrupted writes (with optional manual recovery in between) are seeded search; a run-loop sweep reaches the writes through real main() runs (fresh and resumed, with and without checkpoint_all), keeps the fault window open until the next step of the algorithm, and also starts each run in the directories an interrupted write can leave behind. Every crash is judged by a directory classifier (absent/complete(g)/truncated/mixture).",
         "note": "Trusted: SimFS models POSIX rename/unlink and user-space buffering faithfully; failure model is process death (completed syscalls are durable), as the property states; power loss is out of scope.",
-        "technique": "deterministic simulation: in-memory fs with crash/torn-write/ENOSPC/interrupt injection, exhaustive single-fault sweep + seeded multi-crash sequences",
+        "technique": "deterministic simulation: in-memory fs (hard links, descriptors, sendfile, unbuffered files) with crash/torn-write/short-write/ENOSPC/interrupt injection, exhaustive single-fault sweep + seeded multi-crash sequences",
         "design_ref": "DESIGN.md section 3 (C18)",
     },
 }
@@ -20,8 +20,8 @@ CLAIMED = {
 CLAIMED["C17"] = {
     "engine": "restart_sim",
     "level": "fault_enumeration",
-    "text": "For every scene (every torch optimiser constructible with defaults x scheduler, MAP and ELBO losses, every MCMC operator/adaptor type, CLI-emitted mcmc/hmc/map/advi configurations) an uninterrupted run is recorded and then EVERY checkpoint the run writes is used once as the crash point (kill right after the checkpoint, restart through the real main() with -c, run to the end); seeded extras add kill-at-iteration, graceful SIGINT, faults inside a checkpoint write and chains of up to 4 restarts. Oracles: restart never fails; deep attribute snapshot at checkpoint == snapshot at run() entry after restart; resumed trajectory == uninterrupted trajectory position by position, bit-exact, and same number of steps.",
-    "note": "Trusted: position-keyed re-seeding makes stochastic runs comparable; the snapshot walk (sim/refstate.py) reaches every attribute of the algorithm, operators, adaptors, optimiser and scheduler except an explicit exclusion list (saved_tensors, _epoch, loggers, convergence, listeners). The scene swarm samples configurations; it does not enumerate them.",
+    "text": "For every scene (every torch optimiser constructible with defaults x scheduler, MAP and ELBO losses, every MCMC operator/adaptor type, CLI-emitted mcmc/hmc/map/advi configurations) an uninterrupted run is recorded and then EVERY checkpoint the run writes is used once as the crash point (kill right after the checkpoint, restart through the real main() with -c, run to the end); seeded extras add kill-at-iteration, graceful SIGINT, faults inside a checkpoint write, chains of up to 4 restarts and restarts given an older checkpoint first and the newest last. Scenes include ADVI with normalizing flows (planar layers, RealNVP), full-rank and multi-sample objectives and LBFGS on a stochastic objective. Oracles: restart never fails; deep attribute snapshot at checkpoint == snapshot at run() entry after restart; resumed trajectory == uninterrupted trajectory position by position, bit-exact, and same number of steps.",
+    "note": "Trusted: re-seeding keyed by position (MCMC) and by parameter values (stochastic objectives) makes stochastic runs comparable; the snapshot walk (sim/refstate.py) reaches every attribute of the algorithm, operators, adaptors, optimiser and scheduler except an explicit exclusion list (saved_tensors, _epoch, loggers, convergence, listeners). The scene swarm samples configurations; it does not enumerate them.",
     "technique": "deterministic simulation: crash/restart of whole-program incarnations over an in-memory fs, every checkpoint enumerated as crash point, reference = uninterrupted run",
     "design_ref": "DESIGN.md section 3 (C17)",
 }
@@ -29,7 +29,7 @@ CLAIMED["C17"] = {
 CLAIMED["C15"] = {
     "engine": "mcmc_sim",
     "level": "exploration",
-    "text": "Seeded search over MCMC runs: the real MCMC.run with real operators/adaptors/models/loggers runs under a simulator that owns the operator schedule, the accept/reject coin (uniform, boundary coins placed within 1e-9..1e-3 of the true acceptance probability, always-accept-if-possible, always-reject-unless-certain), the per-transition re-seed and hard-wall numerical faults of the target. After every transition a monitor checks: Hastings ratio == reference log q(x|x')-log q(x'|x) per operator type; density used for the proposal and density carried to the next iteration == target of a freshly rebuilt model; decision == reference MH rule; reject restores every parameter bit-for-bit, accept keeps the proposal; tuning direction; logged rows self-consistent.",
+    "text": "Seeded search over MCMC runs: the real MCMC.run with real operators/adaptors/models/loggers runs under a simulator that owns the operator schedule, the accept/reject coin (uniform, boundary coins placed within 1e-9..1e-3 of the true acceptance probability, always-accept-if-possible, always-reject-unless-certain), the per-transition re-seed and hard-wall numerical faults of the target. After every transition a monitor checks: Hastings ratio == reference log q(x|x')-log q(x'|x) per operator type; density used for the proposal and density carried to the next iteration == target of a freshly rebuilt model; decision == reference MH rule; reject restores every parameter bit-for-bit, accept keeps the proposal; tuning direction, tune() called on the proposing operator only; logged rows self-consistent; every HMC proposal equals a reference leapfrog computed on a freshly built model; the law of the random factor / shift of the scaler and sliding-window kernels and of the HMC momentum is measured on the operator's own sampling map (not assumed).",
     "note": "Trusted: the freshly rebuilt model as the definition of the target; numpy/math re-implementations of the proposal kernels (sim/refprop.py); for the GMRF block update the repository's sufficient statistics and precision matrix are inputs of the reference. A clean batch is evidence, not proof.",
     "technique": "deterministic simulation: simulator-owned schedule/coin/seed seams inside MCMC.run, per-transition invariant monitor against a reference Metropolis-Hastings model, seeded swarm of scenes and policies",
     "design_ref": "DESIGN.md section 3 (C15)",
@@ -38,7 +38,7 @@ CLAIMED["C15"] = {
 CLAIMED["C11"] = {
     "engine": "hist_cache",
     "level": "exploration",
-    "text": "Seeded search over histories of 8..50 operations on model graphs built by the real process_objects (hand-written graph with every parameter kind incl. parametric transforms, a prior scene, and the model part of ~50 CLI-emitted configurations incl. their variational family and ELBO): direct / view / concatenation / transformed assignment, in-place step + notification, distribution draws, proposals and rejections by the real operators, requires_grad toggles, interleaved with reads of seeded subsets of observables (each read clears dirty flags) and evaluations aborted by an injected exception. Every read is compared with the same observable of a model freshly built from JSON with the current base values; an update that succeeds on a fresh model must not raise.",
+    "text": "Seeded search over histories of 8..50 operations on model graphs built by the real process_objects (hand-written graphs with every parameter kind incl. parametric transforms, scenes for priors, substitution / site / empirical models, time trees, every variational objective incl. SELBO and a normalizing flow - 56 of the 59 concrete model / parameter classes of the package are built and read - and the model part of ~50 CLI-emitted configurations incl. their variational family and ELBO): direct / view / concatenation / transformed assignment, in-place step + notification, distribution draws, proposals and rejections by the real operators, requires_grad toggles, batching of all or of single parameters, draws with a sample shape, interleaved with reads of seeded subsets of observables (each read clears dirty flags) and evaluations aborted by an injected exception. Every read is compared with the same observable of a model freshly built from JSON with the current base values; an update that succeeds on a fresh model must not raise.",
     "note": "Trusted: the fresh rebuild as definition of the correct value (C11 is about caching, not about the value); states whose values cannot be handed to a constructor (mixed batched/unbatched shapes after draws) are not judged and are counted; shapes that differ only by leading singleton dimensions are treated as equal values.",
     "technique": "deterministic simulation: seeded scheduler interleaving updates and reads over the dirty-flag state space, fresh-rebuild oracle, injected evaluation aborts",
     "design_ref": "DESIGN.md section 3 (C11)",
@@ -47,7 +47,7 @@ CLAIMED["C11"] = {
 CLAIMED["C03"] = {
     "engine": "hist_rescale",
     "level": "exploration",
-    "text": "History clause of C03 only. Seeded search over evaluation histories of the real TreeLikelihoodModel on synthetic trees (50..1500 taxa, caterpillar / balanced / random, JC69 / HKY, tip partials / tip states): the scheduler scales branch lengths so that per-site likelihoods move between the normal range, the sub-normal band and total underflow (scales found by search on the reference), in unbatched and batched form with rows of mixed magnitude, forces the sticky rescale flag at arbitrary points and revisits easy inputs after the switch. Every evaluation is compared (1e-8 relative) with a log-space pruning reference and with a twin model that rescaled from the start.",
+    "text": "History clause of C03 only. Seeded search over evaluation histories of the real TreeLikelihoodModel on synthetic trees (50..1500 taxa, caterpillar / balanced / random, unrooted or time tree with a strict clock, JC69 / HKY, 1-4 rate categories with or without a zero-rate category, tip partials / tip states, pattern weights, double and single precision): the scheduler scales branch lengths so that per-site likelihoods move between the normal range, the sub-normal band and total underflow (scales found by search on the reference), in unbatched and batched form with rows of mixed magnitude, forces or resets the sticky rescale flag at arbitrary points, revisits easy inputs after the switch, and places directed pieces of history (saturated branches first; an input 740 nats harder than the previous one with the flag on). Every evaluation is compared (1e-8 relative) with a log-space pruning reference and with a twin model that rescaled from the start.",
     "note": "The sweep over all tree sizes / shapes / models is an input quantifier and is only sampled as workload: that part of C03 is not decided here. Trusted: post-order triples and leaf indexing of a freshly built tree model (inputs of the reference), numpy float64 log-sum-exp, closed-form JC69/HKY.",
     "technique": "deterministic simulation restricted to the history clause: seeded evaluation histories across the rescale switch with arithmetic underflow as the injected fault, log-space reference oracle",
     "design_ref": "DESIGN.md section 3 (C03)",
